@@ -832,6 +832,47 @@ static int use_pubkey(TMCG_OpenPGP_Pubkey *pub)
 	return (ok && ok2) ? 1 : 0;
 }
 
+// consumer of a received keyring: parse, list, check, reduce, then look up every identifier the ring ever knew
+static int run_ring(const std::string &in)
+{
+	TMCG_OpenPGP_Keyring *r = NULL;
+	bool ok = PGP::PublicKeyringParse(oct(in), 0, r);
+	if (!ok) return 0;
+	size_t n = r->Size();
+	// every fingerprint and key ID (primary keys and subkeys) a reader of the ring could look up afterwards
+	std::vector<std::string> fprs, kids;
+	for (std::map<std::string, TMCG_OpenPGP_Pubkey*>::const_iterator it = r->keys.begin(); it != r->keys.end(); ++it)
+	{
+		std::string f, k;
+		PGP::FingerprintConvertPlain(it->second->fingerprint, f), PGP::KeyidConvert(it->second->id, k);
+		fprs.push_back(f), kids.push_back(k), kids.push_back(f);
+		for (size_t j = 0; j < it->second->subkeys.size(); j++)
+		{
+			PGP::FingerprintConvertPlain(it->second->subkeys[j]->fingerprint, f), PGP::KeyidConvert(it->second->subkeys[j]->id, k);
+			fprs.push_back(f), kids.push_back(k), kids.push_back(f);
+		}
+	}
+	(void)r->List(""), (void)r->Check(0);
+	r->Reduce();
+	(void)r->Find("0123456789ABCDEF0123456789ABCDEF01234567"), (void)r->FindByKeyid("0123456789ABCDEF");
+	// whatever a lookup returns after Reduce must be a live key of the ring
+	size_t touched = 0;
+	for (size_t i = 0; i < fprs.size(); i++)
+	{
+		const TMCG_OpenPGP_Pubkey *k = r->Find(fprs[i]);
+		if (k) touched += k->userids.size() + k->subkeys.size() + (size_t)k->pkalgo;
+	}
+	for (size_t i = 0; i < kids.size(); i++)
+	{
+		const TMCG_OpenPGP_Pubkey *k = r->FindByKeyid(kids[i]);
+		if (k) touched += k->userids.size() + k->subkeys.size() + (size_t)k->pkalgo;
+		k = r->FindByKeyid("0x" + kids[i]);
+		if (k) touched += k->userids.size() + k->subkeys.size() + (size_t)k->pkalgo;
+	}
+	delete r;
+	return (n > 0 ? 1 : 0) + (touched == (size_t)-1 ? 2 : 0);
+}
+
 static void build_targets(const std::string &family)
 {
 #ifdef C12_HAVE_PGP_SEEDS
@@ -975,17 +1016,6 @@ static void build_targets(const std::string &family)
 			PGP::ArmorDecode(EXT_EMMA, o);
 			add_bin("pgp.PrivateKeyBlockParse", "emma-v5", strof(o), [run_prv](const std::string &in) { return run_prv(in, ""); });
 		}
-		auto run_ring = [](const std::string &in) {
-			TMCG_OpenPGP_Keyring *r = NULL;
-			bool ok = PGP::PublicKeyringParse(oct(in), 0, r);
-			if (!ok) return 0;
-			size_t n = r->Size();
-			(void)r->List(""), (void)r->Check(0);
-			r->Reduce();
-			(void)r->Find("0123456789ABCDEF0123456789ABCDEF01234567"), (void)r->FindByKeyid("0123456789ABCDEF");
-			delete r;
-			return n > 0 ? 1 : 0;
-		};
 		add_bin("pgp.PublicKeyringParse", "two-keys", ringb, run_ring);
 		{
 			// a third key block whose PRIMARY key packet body equals the SUBKEY body of the first key (same fingerprint / key ID)
@@ -1267,15 +1297,7 @@ static void build_targets(const std::string &family)
 				add_len("len.PublicKeyBlockParse", "alice-eddsa", alice, run_pub, true);
 				add_len("len.PublicKeyBlockParse", "mallory-ed25519-v5", to_v5(mallory), run_pub, false);
 				add_len("len.PrivateKeyBlockParse", "prvblock", prvblock, [run_prv](const std::string &in) { return run_prv(in, "FCK!NSA"); }, true);
-				add_len("len.PublicKeyringParse", "ring", ringb, [](const std::string &in) {
-					TMCG_OpenPGP_Keyring *r = NULL;
-					if (!PGP::PublicKeyringParse(oct(in), 0, r)) return 0;
-					size_t n = r->Size();
-					(void)r->Check(0);
-					r->Reduce();
-					delete r;
-					return n > 0 ? 1 : 0;
-				}, true);
+				add_len("len.PublicKeyringParse", "ring", ringb, run_ring, true);
 			}
 		}
 	}
